@@ -128,8 +128,11 @@ def valuation(recipe, suffix):
     return val
 
 
+_WORK, _WORK2 = [], []   # ONE list object per process, refilled in place for every model (a user's work list)
+
+
 def observe_model(recipe, val, reverse=False, redeclare=False):
-    """fresh objects every time; returns {obs: value | exception}"""
+    """fresh expression / variable objects every time, handed over in a reused list object; returns {obs: value | exception}"""
     import warnings
     from optyx import Problem
     from optyx.core import autodiff as A
@@ -146,6 +149,8 @@ def observe_model(recipe, val, reverse=False, redeclare=False):
     V = [b.S(("var", n)) if n in decl else Variable(n) for n in order]
     if redeclare:
         V = [Variable(v_.name, lb=-1.0, ub=1.0) for v_ in V]
+    _WORK[:] = V
+    V = _WORK
     x = np.empty(len(order), dtype=object)
     for i, n in enumerate(order):
         x[i] = val.get(n, 0.0)
@@ -161,7 +166,8 @@ def observe_model(recipe, val, reverse=False, redeclare=False):
             out[name] = ex
 
     rec("compile", lambda: C.compile_expression(e, V)(x))
-    V2_ = list(reversed(V))
+    _WORK2[:] = list(reversed(V))
+    V2_ = _WORK2
     x2 = x[::-1].copy()
     rec("compile(other order)", lambda: C.compile_expression(e, V2_)(x2))
     rec("gradient", lambda: [A.gradient(e, v).evaluate(point) for v in V])
